@@ -121,3 +121,11 @@ def rule_state_layout(ctx):
 
 
 RULES.append(("C05.g", "layout of the packed task state word; runnable_exists predicate", rule_state_layout))
+
+
+def rule_inventory(ctx):
+    from . import inventory
+    inventory.check_narrowing(ctx)
+
+
+RULES.append(("C05.h", "inventory: no new narrowing integer cast", rule_inventory))
